@@ -528,6 +528,7 @@ class FunctionNormalizer(object):
         self.fn = fn
         self.owner = owner           # Normalizer (for helper resolution) or None
         self.counter = 0
+        self.restrict = None         # light mode: only these local names are folded
 
     # -- driver ---------------------------------------------------------------------------------------------
     def run(self):
@@ -549,6 +550,22 @@ class FunctionNormalizer(object):
             self.pass_sink()
             self.pass_temps()
             self.pass_structure()
+        ast.fix_missing_locations(self.fn)
+        return self.fn
+
+    def run_light(self, reference_names):
+        '''only what is NEW relative to the reference spelling of the function is folded away: locals the reference
+        does not have (when they are foldable temporaries) -- the rest of the function stays as written'''
+        new_locals = {n.id for n in ast.walk(self.fn) if isinstance(n, ast.Name) and isinstance(n.ctx, ast.Store)} - set(reference_names)
+        self.restrict = new_locals
+        prev = None
+        for _ in range(20):
+            cur = dump(self.fn.body)
+            if cur == prev:
+                break
+            prev = cur
+            if self.restrict:
+                self.pass_temps()
         ast.fix_missing_locations(self.fn)
         return self.fn
 
@@ -1454,6 +1471,8 @@ class FunctionNormalizer(object):
                 name = st.targets[0].id
                 if name in params or name in declared or stores.get(name, 0) != 1:
                     continue
+                if self.restrict is not None and name not in self.restrict:
+                    continue
                 if isinstance(st.value, (ast.Yield, ast.YieldFrom, ast.Await)):
                     continue
                 uses = [n for n in ast.walk(fn) if isinstance(n, ast.Name) and n.id == name and isinstance(n.ctx, ast.Load)]
@@ -2221,8 +2240,9 @@ def eliminate_returns(body, target, where):
 class Normalizer(object):
     '''whole-repo driver: normalises every function, then inlines non-inventory helpers into their callers'''
 
-    def __init__(self, modules, inventory=None, only=None):
+    def __init__(self, modules, inventory=None, only=None, light=None):
         self.modules = modules
+        self.light = light        # None, or qualified name -> names of the reference spelling (light mode, see run_light)
         self.only = only          # None: every function; else the set of qualified names to bring into normal form
         if inventory is None:
             p = os.path.join(HERE, 'inventory.json')
@@ -2233,12 +2253,14 @@ class Normalizer(object):
         '''(qualname, FunctionDef, class-or-None) for module-level functions and methods'''
         for n in tree.body:
             if isinstance(n, ast.FunctionDef):
-                yield '%s:%s' % (modname, n.name), n, None
+                n._qual = '%s:%s' % (modname, n.name)
+                yield n._qual, n, None
             elif isinstance(n, ast.ClassDef):
                 for m in n.body:
                     if isinstance(m, ast.FunctionDef):
                         m._is_method = True
-                        yield '%s:%s.%s' % (modname, n.name, m.name), m, n
+                        m._qual = '%s:%s.%s' % (modname, n.name, m.name)
+                        yield m._qual, m, n
 
     def wanted(self, q):
         return self.only is None or q in self.only or (self.inventory is not None and q not in self.inventory)
@@ -2256,6 +2278,13 @@ class Normalizer(object):
             ast.fix_missing_locations(mod.tree)
 
     def _nested_first(self, fn):
+        if self.light is not None:
+            q = getattr(fn, '_qual', None)
+            if q in self.light:
+                FunctionNormalizer(fn, self).run_light(self.light[q])
+                return
+            if self.inventory is not None and q in self.inventory:
+                return
         for n in ast.walk(fn):
             if isinstance(n, ast.FunctionDef) and n is not fn:
                 FunctionNormalizer(n, self).run()
